@@ -396,6 +396,16 @@ impl<U, GcdOp> TrainedChunkCompressor<U, GcdOp> where U: UnsignedLike, GcdOp: Gc
   }
 }
 
+// Verification hook (see verif.rs): the body writer on a given prefix table.
+#[cfg(mwlon_quantile_compression_verif)]
+pub(crate) fn verif_body_writer<T: NumberLike>(
+  prefixes: &[Prefix<T>],
+  unsigneds: &[T::Unsigned],
+  writer: &mut BitWriter,
+) -> QCompressResult<()> {
+  trained_compress_chunk_nums(prefixes, unsigneds, writer)
+}
+
 #[derive(Clone, Debug, Default)]
 struct State {
   has_written_header: bool,
